@@ -228,6 +228,9 @@ def gosym_part(prop, tier, seed, name, entry, args_quick=(), args_thorough=None,
         if sid not in rr["sites"]:
             part["obligations"].append({"id": "%s/%s" % (name, sid), "status": "inconclusive", "paths": 0, "note": "assertion site never reached (vacuous)"})
     part["outcomes"] = rr["outcomes"]
+    if (rr["outcomes"] or {}).get("panic"):
+        # a Go panic of the code under test that no verifPanics obligation caught: never a silent pass
+        part["inconclusive"].append("%d path(s) ended in a panic of the code under test outside any no-panic obligation" % rr["outcomes"]["panic"])
     # native replay: all violating assertion models + sample of ordinary paths
     cases, meta = [], {}
     cid = 0
